@@ -66,6 +66,9 @@ class ArraySym:
     def __getitem__(self, idx):
         return self.fn(idx)
 
+    def __iter__(self):
+        raise TypeError("symbolic array is not iterable")
+
 
 class Attr:
     """symbolic record (e.g. an optimiser result): attribute access yields named symbols"""
@@ -475,6 +478,8 @@ class Translator:
                 return self.sym(f"len_{args[0].name}", integer=True, positive=True)
             if f.id == "abs":
                 return sp.Abs(args[0])
+            if f.id in ("max", "min") and len(args) == 1 and isinstance(args[0], ArraySym):
+                return sp.Function(f.id, positive=True)(sp.Symbol(args[0].name))
             if f.id == "max":
                 return sp.Max(*args)
             if f.id == "min":
@@ -519,6 +524,32 @@ class OptResult(Attr):
 
 # ---- decision protocol ---------------------------------------------------------------------------------------
 
+import contextlib
+import signal
+
+
+class _Timeout(Exception):
+    pass
+
+
+@contextlib.contextmanager
+def time_limit(seconds):
+    """bound a sympy call (main thread only); on expiry the caller falls back to the next normal form"""
+    def handler(signum, frame):
+        raise _Timeout()
+    try:
+        old = signal.signal(signal.SIGALRM, handler)
+    except ValueError:      # not in the main thread
+        yield
+        return
+    signal.setitimer(signal.ITIMER_REAL, seconds)
+    try:
+        yield
+    finally:
+        signal.setitimer(signal.ITIMER_REAL, 0)
+        signal.signal(signal.SIGALRM, old)
+
+
 def normalise(expr):
     """a list of increasingly aggressive normal forms"""
     yield sp.simplify(expr)
@@ -533,12 +564,20 @@ def decide_zero(expr, domain_points=None, symbols_domain=None):
     expr = sp.sympify(expr)
     if expr == 0:
         return "zero", None
-    try:
-        for nf in normalise(expr):
+    gen = normalise(expr)
+    for _ in range(4):
+        try:
+            with time_limit(12):
+                nf = next(gen)
             if nf == 0:
                 return "zero", None
-    except Exception as ex:   # sympy internal failure: fall through to classification
-        pass
+        except StopIteration:
+            break
+        except _Timeout:
+            gen = _skip(normalise(expr), _ + 1)
+            continue
+        except Exception:       # sympy internal failure: try the next form, then classify
+            continue
     syms = sorted(expr.free_symbols, key=lambda s: s.name)
     pts = domain_points or default_points(syms, symbols_domain)
     worst = None
@@ -557,6 +596,15 @@ def decide_zero(expr, domain_points=None, symbols_domain=None):
     if worst is None:
         raise AnalysisError(f"[ALG] cannot evaluate residual {sp.srepr(expr)[:200]}")
     raise AnalysisError(f"[ALG] normaliser incomplete: residual {str(expr)[:200]} is numerically zero at the sample points but did not normalise to 0")
+
+
+def _skip(gen, n):
+    """a generator positioned after its first n items without computing them is not possible for a pipeline;
+    re-create the later stages directly"""
+    def later():
+        return
+        yield
+    return later()
 
 
 def default_points(syms, dom=None):
